@@ -84,11 +84,42 @@ fn verif_rx_stream_flow_step() {
     }
 }
 
+// C02 (blocking kind: stream credit). A reader parks until `watermark()` bytes are buffered. That is
+// only safe if the peer can always send that much without any further read: whenever no
+// MAX_STREAM_DATA update is pending after the application consumed `a` bytes, the credit the peer
+// still holds beyond the consumed bytes (window - a, first window of the stream's life) must cover
+// the watermark - otherwise reader and peer wait for each other forever (no timer is armed for this).
+// The update threshold is the real IncrementalValueSync one (observed through transmission interest).
+#[cfg_attr(kani, kani::proof)]
+#[cfg_attr(kani, kani::unwind(2))]
+fn verif_rx_watermark_reachable() {
+    use crate::transmission::interest::Provider as _;
+    let window: u32 = kani::any();
+    let conn = IncomingConnectionFlowController::new(VarInt::from_u32(window), window);
+    let mut fc = ReceiveStreamFlowController::new(conn.clone(), VarInt::from_u32(window), window);
+    // the peer sent `a` bytes and the application consumed all of them
+    let a: u32 = kani::any();
+    kani::assume(a >= 1 && a <= window);
+    assert!(fc.acquire_window_up_to(VarInt::from_u32(a), None).is_ok());
+    fc.release_window(VarInt::from_u32(a));
+    if !fc.read_window_sync.has_transmission_interest() {
+        // no credit update is on its way: what the peer may still send must satisfy the reader
+        let peer_credit = (window - a) as u64;
+        assert!(fc.watermark() as u64 <= peer_credit);
+        kani::cover!(a > 1, "several bytes consumed without triggering a MAX_STREAM_DATA");
+    } else {
+        kani::cover!(true, "consumption triggered a MAX_STREAM_DATA update");
+    }
+    core::mem::forget(fc);
+    core::mem::forget(conn);
+}
+
 // ---- generated by tools/fixup.py: native replay entry ----
 #[cfg(not(kani))]
 #[test]
 fn verif_replay() {
     kani::replay(&[
         ("verif_rx_stream_flow_step", verif_rx_stream_flow_step),
+        ("verif_rx_watermark_reachable", verif_rx_watermark_reachable),
     ]);
 }
